@@ -197,12 +197,20 @@ func (rs *bodyStream) Read(p []byte) (int, error) {
 	m := len(p) - n
 	remain := rs.contentLength - rs.offset
 
-	if m > remain {
-		m = remain
+	// contentLength is negative for a body that lasts until the connection closes
+	if rs.contentLength >= 0 {
+		if remain <= 0 {
+			// the prefetched data already covered the whole body
+			rs.offset = rs.contentLength
+			return n, io.EOF
+		}
+		if m > remain {
+			m = remain
+		}
 	}
 
 	if conn, ok := rs.reader.(io.Reader); ok {
-		m, err = conn.Read(p[n:])
+		m, err = conn.Read(p[n : n+m])
 	} else {
 		var tmp []byte
 		tmp, err = rs.reader.Peek(m)
